@@ -137,6 +137,30 @@ PROFILES = [
     },
 ]
 
+# ---- the setter of `Engine.input_values`: the array is an `Op.Engine.NdArr` (number of dimensions; entries up to 2-D);
+# `cols`: the batch of values every input variable has received (`v.value = values[:, i]` goes through the clipping setter)
+ND = "Op.Engine.NdArr Rat"
+PROFILES += [
+    {
+        "name": "Engine_set_input_values", "module": "fuzzylite.engine", "object": "Engine.input_values.fset", "file": "CodeSession",
+        "params": [("ins", f"List ({INVAR})"), ("values0", ND)], "init": {"values": "values0"},
+        "locals": {"values": ND, "i": "Nat", "v": INVAR, "cols": "List (List (X Rat))"},
+        "externals": [
+            ("self.input_variables", "ins", f"List ({INVAR})", True),
+            ("values.ndim", "σ.values.ndim", "Nat", True),
+            ("values.item()", "(Py.Sess.orValueError σ.values.item)", "X Rat", False),
+            ("np.full((1, _0), fill_value=_1)", "(Op.Engine.NdArr.fullRow {0} {1})", ND, True, ["Nat", "X Rat"]),
+            ("np.atleast_2d(values)", "σ.values.atleast2d", ND, True),
+            ("values.T", "σ.values.transpose", ND, True),
+            ("values.shape[1]", "(Py.Sess.orIndexError σ.values.shape1)", "Nat", False),
+        ],
+        "stmt_externals": [
+            ("v.value = values[:, i]",
+             "{{ σ with cols := σ.cols ++ [(σ.values.col σ.i).map (fun x => (σ.v.setValue x).value)] }}", True),
+        ],
+    },
+]
+
 FILES = {
     "CodeSession": {"imports": ["FlVerif.Op.PyExtSession"]},
 }
